@@ -159,6 +159,8 @@ package engine
 //@   modifies *
 //@   ensures [C03.transporterror] calls((*socket).OnClose) == 1 && arg((*socket).OnClose, 1, reason) == "transport error"
 //@ func (*socket).OnClose(reason, description)
+// write-site censuses (checked on the whole module): the session's state has one setter, and nothing else writes it
+//@   census [C03.state.census] (*socket).readyState written only by (*socket).SetReadyState, MakeSocket
 //@   props C03, C07, C18, C12
 //@   requires sockLive(s)
 //@   modifies *
@@ -173,7 +175,7 @@ package engine
 //@     assert [C03.closedbeforeclear] s.ReadyState() == "closed"
 // OnClose is reached from listeners and callbacks that run inside a hand-off (see the C18 findings on flush): it must not
 // wait for the hand-off lock itself
-//@   ensures [C18.closenolock] calls((*sync.Mutex).Lock) == 0
+//@   ensures [C18.closenolock,C04.closenolock,C03.closenolock] calls((*sync.Mutex).Lock) == 0
 
 //@ func (*socket).clearTransport()
 //@   props C03, C08
@@ -182,7 +184,13 @@ package engine
 //@   ensures [C03.clearkeeps] s.ReadyState() == old(s.ReadyState())
 //@   ensures s.Transport() == old(s.Transport())
 //@   ensures [C08.clearcloses] calls(transports.Transport.Close) == 1 && calls(utils.ClearTimeout) == 1
+// clearTransport runs inside OnClose, which is reached from listeners and callbacks that run inside a hand-off: if it
+// waited for the hand-off lock, the close would never emit its event and the registry's close hook would never run
+//@   ensures [C04.clearnolock,C03.clearnolock,C18.clearnolock] calls((*sync.Mutex).Lock) == 0
 //@ func (*socket).setTransport(transport)
+// the session's transport is stored by setTransport only; the upgrade flags are set by MaybeUpgrade and its listeners only
+//@   census [C08.transport.census,C01.transport.census] (*socket).transport written only by (*socket).setTransport, (*socket).Transport
+//@   census [C08.flags.census] (*socket).upgraded, (*socket).upgrading written only by (*socket).MaybeUpgrade
 //@   props C08
 //@   requires sockOK(s) && transport != nil
 //@   modifies *
@@ -259,7 +267,7 @@ package engine
 //@   modifies *
 //@   let rs = old(s.ReadyState())
 //@   ensures [C03.sendafterclose,C01.discard] rs == "closing" || rs == "closed" ==> nevents() == 0
-//@   ensures s.Transport() == old(s.Transport())
+//@   ensures s.Transport() != nil    // an upgrade may switch the transport while a packet is sent; there is always one
 //@   ensures [C01.accept] rs != "closing" && rs != "closed" ==> calls((*types.Slice).Push) >= 1 && emitted(s.EventEmitter, "packetCreate") == 1 && calls((*socket).flush) == 1
 //@   ensures [C18.packetCreateFirst] rs != "closing" && rs != "closed" ==> before(types.EventEmitter.Emit, 1, (*types.Slice).Push, 1) && before((*types.Slice).Push, 1, (*socket).flush, 1)
 //@   callsite (*types.Slice).Push#1
@@ -270,6 +278,10 @@ package engine
 //@     assert [C18.cbpush] $s == s.packetsFn && callback != nil && len($elements) == 1
 
 //@ func (*socket).onPacket(data)
+// the heartbeat timers are armed, re-armed and cleared by the heartbeat code and by the teardown only
+//@   census [C07.timers.census] (*socket).pingIntervalTimer written only by (*socket).OnClose, (*socket).onPacket, (*socket).schedulePing
+//@   census [C07.timers.census2] (*socket).pingTimeoutTimer written only by (*socket).OnClose, (*socket).clearTransport, (*socket).onPacket, (*socket).resetPingTimeout
+//@   census [C07.revision.census,C09.revision.census] (*socket).protocol written only by (*socket).Construct
 //@   props C07, C02, C03
 //@   requires sockLive(s) && data != nil
 //@   requires hbOK(s)   // the heartbeat timer of the session's revision exists from onOpen on; the transport's revision is NOT assumed to agree with the session's (a candidate transport may have been upgraded to with another EIO value)
@@ -338,7 +350,7 @@ package engine
 //@   let writable = old(s.Transport().Writable())
 //@   let pending  = old(len(s.writeBuffer.elements)) > 0
 //@   ensures [C03.flushclosed] closed ==> nevents() == 0
-//@   ensures s.Transport() == old(s.Transport())
+//@   ensures s.Transport() != nil
 //@   ensures [C01.gate]    !(!closed && writable && pending) ==> calls(transports.Transport.Send) == 0 && emitted(s.EventEmitter, "flush") == 0 && emitted(s.EventEmitter, "drain") == 0
 //@   ensures [C01.handoff] !closed && writable && pending ==> calls(transports.Transport.Send) == 1 && arg(transports.Transport.Send, 1, packets) == ret((*types.Slice).AllAndClear, 1)
 //@   ensures [C18.events]  !closed && writable && pending ==> emitted(s.EventEmitter, "flush") == 1 && emitted(s.EventEmitter, "drain") == 1 && emitted(s.server, "flush") == 1 && emitted(s.server, "drain") == 1
@@ -349,6 +361,12 @@ package engine
 // themselves send or close (the property says so): what they push into the two buffers meanwhile is unknown to flush,
 // so nothing flush does after the hand-off may depend on the buffers being still empty
 //@   reenter types.EventEmitter.Emit, transports.Transport.Send modifies s.writeBuffer.elements, s.packetsFn.elements
+// the upgrade switches the session's transport without taking the hand-off lock: the transport may change at any moment
+// of a flush. The batch goes to the transport that is current when it is handed over, not to one looked up earlier
+// (a discarded polling transport would swallow it)
+//@   reenter * modifies s.transport.v keeping s.Transport() != nil
+//@   callsite transports.Transport.Send#1
+//@     assert [C08.flush.current,C01.flush.current] $this == s.Transport()
 //@   callsite types.EventEmitter.Emit#1
 //@     assert [C18.flushbatch] $evt == "flush" && len($args) == 1
 // the writability test, the buffer swap and the hand-off form one critical section: two flushes can neither both see the
@@ -479,6 +497,10 @@ package engine
 //@   modifies *
 
 //@ func (*baseServer).Handshake(transportName, ctx)
+// the count moves only where the table does: in Handshake (+1) and in the close hook it registers (-1); the table object
+// itself is installed once
+//@   census [C04.count.census] (*baseServer).clientsCount written only by (*baseServer).Handshake
+//@   census [C04.table.census] (*baseServer).clients written only by MakeBaseServer
 //@   props C04, C06, C05, C10
 //@   requires bs != nil && ctx != nil && bs.opts != nil && bs.clients != nil && bs._proto_ != nil && bs.EventEmitter != nil && ctx.query != nil
 //@   modifies *
@@ -493,8 +515,8 @@ package engine
 //@   ensures [C04.closehook] result1 != nil ==> ncalls(types.EventEmitter.Once, evt == "close" && this == ret(NewSocket, 1)) == 1
 //@   ensures [C04.hookfirst] result1 != nil ==> before(types.EventEmitter.Once, 1, types.EventEmitter.Emit, 1)    // the registry's close hook is in place before the application hears of the session (and may close it)
 //@   ensures [C06.order]    result1 != nil ==> before(NewSocket, 1, (*types.Map).Store, 1) && before((*types.Map).Store, 1, types.EventEmitter.Once, 1)
-//@   ensures [C06.protocol] result1 != nil ==> arg(NewSocket, 1, protocol) == (eio4 ? 4 : 3) && arg(NewSocket, 1, transport) == result1 && arg(NewSocket, 1, ctx) == ctx
-//@   ensures [C06.rev3]     result1 != nil && !eio4 ==> bs.opts.AllowEIO3()
+//@   ensures [C06.protocol,C09.revisionagrees] result1 != nil ==> arg(NewSocket, 1, protocol) == (eio4 ? 4 : 3) && arg(NewSocket, 1, transport) == result1 && arg(NewSocket, 1, ctx) == ctx
+//@   ensures [C06.rev3,C09.rev3gate]     result1 != nil && !eio4 ==> bs.opts.AllowEIO3()
 // what is registered is the session just created, never nil (with Store leaving the other keys alone, this keeps the registry invariant)
 //@   callsite (*types.Map).Store#1
 //@     assert [C04.registry.nonnil] $value != nil && $m == bs.clients
